@@ -60,6 +60,34 @@ def record(msg="hello %s", args=("w",)):
     return logging.LogRecord("zcv.test", logging.INFO, __file__, 12, msg, args, None, func="fn")
 
 
+def _more_records():
+    import sys
+    out = [record("", ()), record("x", ())]
+    try:
+        raise RuntimeError("boom")
+    except RuntimeError:
+        er = logging.LogRecord("zcv.test", logging.ERROR, __file__, 7, "failed", (), sys.exc_info(), func="fn")
+        out += [er, er]       # the second handler that formats it finds exc_text filled in by the first
+    r = record("late", ())
+    r.relativeCreated = -5.25
+    out.append(r)
+    return out
+
+
+def _value_dependent_shape(style, fmt):
+    """for the format style: is there a field whose rendering depends on the VALUE of the attribute, not only on its type?"""
+    import re
+    if style != "format":
+        return ""
+    if re.search(r"\{[^{}:!]*\[", fmt):
+        return ":subscript"
+    if re.search(r"\{[^{}:!]*\.", fmt):
+        return ":attribute"
+    if re.search(r"\{[^{}]*\{", fmt):
+        return ":nested-field"
+    return ""
+
+
 def run(ctx):
     import ZConfig
     from ZConfig.components.logger import loghandler
@@ -343,6 +371,35 @@ def _formats(ctx, rng, tmp):
                 ctx.count("%s-model:%s" % (style, got if r[0] != "exc" else "raised:" + str(r[1])))
                 if got != want:
                     ctx.disagree("template-format", {"format": f, "style": style}, [got] + [str(x) for x in r[:2]][:2], [str(x) for x in a])
+    # the format style against the model ZCV/Model/LogStrFormat.lean (string.Formatter.vformat on the sample record, logging's
+    # StrFormatStyle.validate): accepted at load <-> the model accepts (the model may abstain: attributes of arbitrary objects,
+    # astronomically wide fields)
+    sf = sorted({f for st_, f in cases if st_ == "format"})
+    sp = ["{message}", "{levelno:>5d}", "{created:.3f}", "{name!r:^10}", "{thread:x}", "{lineno:c}", "{msecs:03.0f}", "{message:{lineno}}", "{}", "{0}",
+          "{{", "}}", "{", "}", "{nope}", "{message.upper}", "{message[0]}", "{message[99]}", "{name:=10}", "{levelno:,}", "{levelno:_b}", "{created:%}",
+          "{asctime!z}", "{message:s:}", "{levelname:<8}", "{process:d}", "{exc_info:5}", "{thread:c}", "{relativeCreated:+.1e}", "{asctime}", " ", "-", "x",
+          "{funcName!s}", "{pathname!a:.10}", "{module:>{lineno}}", "{lineno:#x}", "{levelno:08.3f}", "{name.real}", "{process.real}", "{message:\u017f}"]
+    for _ in range(4000 if ctx.thorough() else 500):
+        sf.append("".join(rng.choice(sp) for _ in range(rng.randint(1, 4))))
+    sf = [f for f in dict.fromkeys(sf) if f and f.strip() == f and "\n" not in f and "$" not in f and not f.startswith(("<", "#", "%"))]
+    if ctx.driver_ok:
+        mans = core.driver_batch([[Atom("logsfmt"), f] for f in sf])
+        for f, a in zip(sf, mans):
+            if str(a[1]) == "unmodelled":
+                ctx.count("format-model:abstained")
+                continue
+            text = "<logger>\n name zcv.c20.ls\n <logfile>\n  path STDOUT\n  style format\n  format %s\n </logfile>\n</logger>\n" % f
+            r = load(text)
+            ctx.evaluations += 1
+            got = "accepted" if r[0] == "ok" else "not-accepted"
+            want = "accepted" if str(a[0]) == "t" else "not-accepted"
+            ctx.count("format-model:%s" % (got if r[0] != "exc" else "raised:" + str(r[1])))
+            if got != want:
+                ctx.disagree("str-format", {"format": f}, [got] + [str(x) for x in r[:2]][:2], [str(x) for x in a])
+    # directed: formats of the format style whose rendering depends on the VALUE of an attribute (a subscript, an attribute of
+    # an attribute, a nested field used as a format spec) - see the listed findings
+    cases += [("format", "{message[0]}"), ("format", "{levelname} {message[7]}"), ("format", "{exc_text.__bool__} {message}"),
+              ("format", "{message:{relativeCreated}}")]
     i = 0
     for style, fmt in cases:
         for arb in (False, True):
@@ -372,6 +429,10 @@ def _formats(ctx, rng, tmp):
                 continue
             try:
                 h = logger.handlers[0]
+                # further ordinary records: an empty message, a short one, one logged with exception information, one created
+                # "before" the logging module was loaded (relativeCreated negative: the clock was set back)
+                for rec2 in _more_records():
+                    h.format(rec2)
                 rec = record()
                 out = h.format(rec)
                 if style in ("template", "safe-template"):
@@ -391,7 +452,8 @@ def _formats(ctx, rng, tmp):
                                     {"text": text, "output": out, "expected": exp}, signature="C20:format:render:" + style)
             except Exception as e:
                 ctx.violate("format %r (%s) accepted at load, but formatting an ordinary record raises %s" % (fmt, style, type(e).__name__),
-                            {"text": text, "style": style, "format": fmt}, signature="C20:format:format-raises:%s:%s" % (style, type(e).__name__))
+                            {"text": text, "style": style, "format": fmt},
+                            signature="C20:format:format-raises:%s:%s%s" % (style, type(e).__name__, _value_dependent_shape(style, fmt)))
             reset_logging([name])
 
 
